@@ -86,6 +86,24 @@ func genericReplay(c *Ctx, prop string, r map[string]any) (handled bool, reprodu
 		return out
 	}
 	defer Flags{}.Apply()
+	if ls, ok := r["lines"].([]any); ok && len(ls) > 0 && str(r, "got") != "" { // a sequence of lines through the stream code
+		var lines []string
+		for _, l := range ls {
+			if t, ok := l.(string); ok {
+				lines = append(lines, t)
+			}
+		}
+		fl.Apply()
+		out, err, pv := c06RunInproc(strings.Join(lines, "\n")+"\n", len(lines), "reader", "nobar")
+		show("flags", fl.String())
+		for i, l := range lines {
+			show(fmt.Sprintf("line %d", i), l)
+		}
+		show("expected (fresh runs)", str(r, "expected"))
+		show("recorded output", str(r, "got"))
+		show("output now", fmt.Sprintf("%s (err %v, panic %v)", out, err, pv))
+		return true, out != str(r, "expected")
+	}
 	switch {
 	case str(r, "line_b") != "": // C02: two lines that differ in redacted values only
 		a, b := run(str(r, "input"), fl), run(str(r, "line_b"), fl)
